@@ -658,3 +658,144 @@ def cond_polarity(conds, pred):
                 return "infeasible"
             val = v
     return val
+
+
+# ------------------------------------------------------------------ what CompilerPassGatherCode.run puts into the program
+class Emission:
+    """One statement of GatherCode.run that adds instruction lines to self.code."""
+    def __init__(self, stmt, conds, sources, order):
+        self.stmt, self.conds, self.sources, self.order = stmt, conds, sources, order
+
+    def guard_text(self):
+        return [norm(t) + ("" if p else " is False") for t, p in self.conds]
+
+
+def gather_model(repo: Repo):
+    """[Emission] of generate_code.CompilerPassGatherCode.run: for every statement that appends/extends/assigns self.code the
+    conditions under which a region's lines get there (enclosing tests, early 'continue's, filters of the comprehensions the
+    regions are drawn from; locals replaced by their definitions) and the outermost iteration source that fixes the order."""
+    from .c15 import symbolic_path, _subst
+    g = repo.mod("generate_code")
+    fn = g.func("CompilerPassGatherCode.run")
+    out = []
+    for st in ast.walk(fn):
+        src = None
+        if isinstance(st, ast.Expr) and isinstance(st.value, ast.Call) and isinstance(st.value.func, ast.Attribute) and st.value.func.attr in ("append", "extend", "insert") \
+                and norm(st.value.func.value) == "self.code" and st.value.args:
+            src = st.value.args[-1]
+        elif isinstance(st, ast.AugAssign) and norm(st.target) == "self.code":
+            src = st.value
+        elif isinstance(st, ast.Assign) and any(norm(t) == "self.code" for t in st.targets) and not (isinstance(st.value, (ast.List, ast.Tuple)) and not st.value.elts):
+            src = st.value
+        if src is None:
+            continue
+        env, conds = symbolic_path(fn, st)
+        conds = list(conds)
+        sources = []
+        # enclosing loops, outermost first
+        chain = []
+        p = getattr(st, "parent", None)
+        while p is not None and p is not fn:
+            if isinstance(p, ast.For):
+                chain.append(p)
+            p = getattr(p, "parent", None)
+        pending = [_subst(lp.iter, env) for lp in reversed(chain)]
+        s2 = _subst(src, env)
+        if isinstance(s2, (ast.ListComp, ast.GeneratorExp)):
+            pending.append(s2)
+        elif isinstance(s2, ast.Call) and norm(s2.func) in ("list", "tuple") and len(s2.args) == 1 and isinstance(s2.args[0], (ast.ListComp, ast.GeneratorExp)):
+            pending.append(s2.args[0])
+        depth = 0
+        while pending:
+            depth += 1
+            if depth > 12:
+                raise AnalysisError("GatherCode.run: iteration sources nest too deeply")
+            it = pending.pop(0)
+            if isinstance(it, (ast.ListComp, ast.GeneratorExp)):
+                for gen in it.generators:
+                    for c in gen.ifs:
+                        conds.append((c, True))
+                    pending.append(gen.iter)
+                continue
+            sources.append(it)
+        order = None
+        for it in sources:
+            calls = [c for c in ast.walk(it) if isinstance(c, ast.Call) and norm(c.func) == "sorted"]
+            if calls:
+                order = calls[0]
+                break
+        out.append(Emission(st, conds, sources, order))
+    return fn, out
+
+
+def _main_atom(e):
+    """key == ''  /  <f>.node is None   ->  +1;  the negated spellings -> -1; else 0"""
+    if isinstance(e, ast.Compare) and len(e.ops) == 1:
+        l, r = e.left, e.comparators[0]
+        if any(isinstance(x, ast.Constant) and x.value == "" for x in (l, r)) and isinstance(e.ops[0], (ast.Eq, ast.NotEq)):
+            return 1 if isinstance(e.ops[0], ast.Eq) else -1
+        if isinstance(r, ast.Constant) and r.value is None and isinstance(l, ast.Attribute) and l.attr == "node" and isinstance(e.ops[0], (ast.Is, ast.IsNot, ast.Eq, ast.NotEq)):
+            return 1 if isinstance(e.ops[0], (ast.Is, ast.Eq)) else -1
+    return 0
+
+
+def region_formula(e):
+    """Boolean formula over the atoms M (main region), C (is_called), X (is_constexpr) and free atoms (other tests)."""
+    if isinstance(e, ast.BoolOp):
+        return ("and" if isinstance(e.op, ast.And) else "or", [region_formula(v) for v in e.values])
+    if isinstance(e, ast.UnaryOp) and isinstance(e.op, ast.Not):
+        return ("not", region_formula(e.operand))
+    if isinstance(e, ast.Constant):
+        return ("const", bool(e.value))
+    m = _main_atom(e)
+    if m:
+        return ("atom", "M") if m > 0 else ("not", ("atom", "M"))
+    if isinstance(e, ast.Attribute) and e.attr == "is_called":
+        return ("atom", "C")
+    if isinstance(e, ast.Attribute) and e.attr == "is_constexpr":
+        return ("atom", "X")
+    return ("atom", "?" + norm(e))
+
+
+def _fatoms(f, acc):
+    if f[0] == "atom":
+        acc.add(f[1])
+    elif f[0] == "not":
+        _fatoms(f[1], acc)
+    elif f[0] in ("and", "or"):
+        for x in f[1]:
+            _fatoms(x, acc)
+    return acc
+
+
+def _feval(f, a):
+    if f[0] == "atom":
+        return a[f[1]]
+    if f[0] == "const":
+        return f[1]
+    if f[0] == "not":
+        return not _feval(f[1], a)
+    if f[0] == "and":
+        return all(_feval(x, a) for x in f[1])
+    return any(_feval(x, a) for x in f[1])
+
+
+def emission_table(em: Emission):
+    """(rows, free): rows = [(assignment dict, emitted?)] over all feasible truth assignments of M, C, X and the free atoms
+    (feasible: the main region always counts as called, FunctionData.is_called)."""
+    import itertools
+    fs = [region_formula(t) if p else ("not", region_formula(t)) for t, p in em.conds]
+    atoms = set(["M", "C", "X"])
+    for f in fs:
+        _fatoms(f, atoms)
+    free = sorted(a for a in atoms if a.startswith("?"))
+    if len(free) > 6:
+        raise AnalysisError("GatherCode.run: too many unrecognised tests around the emission of a region")
+    names = ["M", "C", "X"] + free
+    rows = []
+    for vals in itertools.product([False, True], repeat=len(names)):
+        a = dict(zip(names, vals))
+        if a["M"] and not a["C"]:
+            continue
+        rows.append((a, all(_feval(f, a) for f in fs)))
+    return rows, free
